@@ -5,10 +5,10 @@
 JOBS = [
     # ---- playback/tape_recorder.py: decorator wrappers and play
     dict(job=('specs.tr_units', 'w_in_playback', {}), props=['C01', 'C02', 'C09', 'C06', 'C11', 'C20', 'C08'], cases='w_in'),
-    dict(job=('specs.tr_units', 'w_in_recording', {}), props=['C01', 'C02', 'C03', 'C04', 'C05', 'C09', 'C11', 'C20'], cases='w_in'),
-    dict(job=('specs.tr_units', 'w_out', {'mode': 'playback'}), props=['C01', 'C02', 'C03', 'C09'], cases='w_out'),
-    dict(job=('specs.tr_units', 'w_out', {'mode': 'recording'}), props=['C01', 'C02', 'C03', 'C04', 'C05', 'C09'], cases='w_out'),
-    dict(job=('specs.tr_units', 'w_op_recording', {}), props=['C03', 'C04', 'C05', 'C09', 'C17', 'C18', 'C11'], cases='w_op'),
+    dict(job=('specs.tr_units', 'w_in_recording', {}), props=['C01', 'C02', 'C03', 'C04', 'C05', 'C09', 'C11', 'C20', 'C06'], cases='w_in'),
+    dict(job=('specs.tr_units', 'w_out', {'mode': 'playback'}), props=['C01', 'C02', 'C03', 'C09', 'C11', 'C20', 'C08'], cases='w_out'),
+    dict(job=('specs.tr_units', 'w_out', {'mode': 'recording'}), props=['C01', 'C02', 'C03', 'C04', 'C05', 'C09', 'C20'], cases='w_out'),
+    dict(job=('specs.tr_units', 'w_op_recording', {}), props=['C01', 'C03', 'C04', 'C05', 'C09', 'C17', 'C18', 'C11'], cases='w_op'),
     dict(job=('specs.tr_units', 'w_op_passthrough', {'mode': 'disabled'}), props=['C04']),
     # the input / output wrappers when NOT intercepting: idle recorder, or a call nested inside another interception
     dict(job=('specs.tr_units', 'w_passthrough', {'unit': 'in', 'mode': 'idle'}), props=['C04', 'C09']),
@@ -56,19 +56,19 @@ JOBS = [
     dict(job=('specs.equalizer', 'worker_target', {}), props=['C08', 'C13']),
     dict(job=('specs.c01', 'tr_init', {}), props=['C09', 'C17']),
     # ---- cassettes: in-memory, file-based, MemoryRecording, TapeCassette base methods
-    dict(job=('specs.cassettes', 'in_memory_roundtrip', {}), props=['C07', 'C11', 'C02', 'C09', 'C05']),
+    dict(job=('specs.cassettes', 'in_memory_roundtrip', {}), props=['C07', 'C11', 'C02', 'C09', 'C05', 'C01']),
     dict(job=('specs.cassettes', 'in_memory_get', {}), props=['C07', 'C11']),
     dict(job=('specs.cassettes', 'memory_recording', {}), props=['C07', 'C11', 'C01', 'C05', 'C18', 'C04']),
     dict(job=('specs.cassettes', 'in_memory_create', {}), props=['C07', 'C10', 'C04']),
     dict(job=('specs.cassettes', 'in_memory_iter', {}), props=['C10', 'C19']),
     dict(job=('specs.cassettes', 'category_units', {}), props=['C10', 'C19']),
     dict(job=('specs.cassettes', 'pickle_copy_unit', {}), props=['C11', 'C01', 'C07', 'C04']),
-    dict(job=('specs.cassettes', 'file_roundtrip', {}), props=['C07', 'C11', 'C05']),
+    dict(job=('specs.cassettes', 'file_roundtrip', {}), props=['C07', 'C11', 'C05', 'C01']),
     dict(job=('specs.cassettes', 'file_iter', {}), props=['C10', 'C19']),
     dict(job=('specs.cassettes', 'file_create', {}), props=['C07', 'C10', 'C04']),
     dict(job=('specs.cassettes', 'base_cassette_misc', {}), props=['C05', 'C04', 'C17', 'C11', 'C07', 'C15']),
     # ---- S3 cassette and facade
-    dict(job=('specs.s3', 's3_save_get', {}), props=['C07', 'C11', 'C15', 'C17', 'C05']),
+    dict(job=('specs.s3', 's3_save_get', {}), props=['C07', 'C11', 'C15', 'C17', 'C05', 'C01']),
     dict(job=('specs.s3', 's3_close', {}), props=['C15']),
     dict(job=('specs.s3', 's3_create', {}), props=['C15', 'C16', 'C10', 'C07']),
     dict(job=('specs.s3', 's3_should_sample', {}), props=['C17']),
